@@ -170,9 +170,10 @@ type Interp struct {
 	// above the newer versions (known finding gc-old-version-resurfaces).
 	stale map[string]bool
 	// hooks for derived checks
-	OnReopen func(in *Interp) error
-	AfterOp  func(in *Interp) error
-	skip     int // ops still to be skipped by the main loop (they ran inside a GC pause)
+	OnReopen     func(in *Interp) error
+	AfterOp      func(in *Interp) error
+	skip         int      // ops still to be skipped by the main loop (they ran inside a GC pause)
+	pendingStale []string // see doGC
 	// TsRestarts counts re-opens after which the DB restarted its timestamps below dropped dead versions.
 	TsRestarts int
 	// Ext holds the op kinds of derived checks (stream, backup, drop, ...), Cnt their counters.
@@ -1037,9 +1038,32 @@ func (in *Interp) doGC(op Op) error {
 		for _, c := range cands {
 			in.stale[c] = true
 		}
+		// Every (key, version) pair the store holds when the rewrite has finished may be a moved
+		// copy sitting in an upper level: if the key is deleted or overwritten LATER and a compaction
+		// then purges the tombstone together with the original below it, the moved copy is what
+		// readers get (same known finding). These pairs are only excused from the NEXT step on:
+		// the full sweep right after this GC call still judges them (a tombstone purged while the
+		// rewrite was in flight shows up there and is a violation, not the known finding).
+		in.pendingStale = in.storedPairs()
 	}
 	in.epoch++
 	return nil
+}
+
+// storedPairs lists every (key, version) pair the store holds.
+func (in *Interp) storedPairs() []string {
+	var out []string
+	txn, _ := in.newReader()
+	defer txn.Discard()
+	o := badger.DefaultIteratorOptions
+	o.AllVersions = true
+	o.PrefetchValues = false
+	it := txn.NewIterator(o)
+	defer it.Close()
+	for it.Rewind(); it.Valid(); it.Next() {
+		out = append(out, staleKey(it.Item().Key(), it.Item().Version()))
+	}
+	return out
 }
 
 // staleCandidates lists the (key, version) pairs stored below a newer version of their key.
@@ -1482,7 +1506,14 @@ func (in *Interp) execOp(op Op) error {
 		if err := in.doGC(op); err != nil {
 			return err
 		}
-		return in.CheckAll()
+		if err := in.CheckAll(); err != nil {
+			return err
+		}
+		for _, c := range in.pendingStale {
+			in.stale[c] = true
+		}
+		in.pendingStale = nil
+		return nil
 	case "reopen":
 		if err := in.doReopen(op); err != nil {
 			return err
